@@ -143,7 +143,7 @@ func proposePL(r *gen.Rand, t *ref.VersionTraits, cur *ref.Value, creators []str
 }
 
 var c07kinds = []string{"restricted-join", "restricted-join", "knock", "member-self", "member-self", "member-self", "member-other", "member-other", "member-other", "member-tpi", "first-join", "message", "state", "at-state-own", "at-state-other",
-	"tpi-event", "redaction", "aliases", "create", "power-levels", "power-levels", "power-levels"}
+	"tpi-event", "redaction", "aliases", "create", "power-levels", "power-levels", "power-levels", "lookalike-keys", "lookalike-keys"}
 
 func genAuthCase(r *gen.Rand, w *world) (*authCase, error) {
 	kind := gen.Pick(r, c07kinds)
@@ -313,6 +313,74 @@ func genAuthCase(r *gen.Rand, w *world) (*authCase, error) {
 			cur = ref.MustParse(plEv.Content())
 		}
 		ac.ev, err = w.build("m.room.power_levels", strp(""), sender, proposePL(r, w.t, cur, creators), nil, "")
+	case "lookalike-keys":
+		// content keys that differ from a key the rules read only by letter case (or a letter that case-folds to
+		// ASCII) are unknown keys: the rules see the real key, or none
+		variant := func(k string) string { return gen.Pick(r, gen.FoldVariants(k)) }
+		replace := func(typ string, p gmsl.PDU) {
+			out := ac.state[:0:0]
+			for _, q := range ac.state {
+				if !(q.Type() == typ && q.StateKeyEquals("")) {
+					out = append(out, q)
+				}
+			}
+			ac.state = append(out, p)
+		}
+		switch r.Intn(4) {
+		case 0: // the membership of the event under test
+			c := ref.O()
+			if r.Chance(0.5) {
+				c.Set("membership", ref.S(gen.Pick(r, []string{"leave", "invite", "ban"})))
+			}
+			c.Set(variant("membership"), ref.S("join"))
+			ac.ev, err = w.build("m.room.member", strp(sender), sender, c, nil, "")
+		case 1: // thresholds / users of the room's power levels
+			pc := randPLContent(r, w.t, creators)
+			if plEv != nil {
+				pc = ref.MustParse(plEv.Content())
+			}
+			for _, k := range []string{"state_default", "events_default", "ban", "kick", "invite", "redact"} {
+				if r.Chance(0.5) {
+					pc.Set(variant(k), ref.I(0))
+				}
+			}
+			pc.Set(variant("users"), ref.O(sender, ref.I(100)))
+			pc.Set(variant("users_default"), ref.I(100))
+			if pl, e := w.build("m.room.power_levels", strp(""), authUsers[0], pc, nil, ""); e == nil {
+				replace("m.room.power_levels", pl)
+			}
+			switch r.Intn(3) {
+			case 0:
+				ac.ev, err = w.build("m.room.topic", strp(""), sender, ref.O("topic", ref.S("t")), nil, "")
+			case 1:
+				for target == sender {
+					target = gen.Pick(r, authUsers)
+				}
+				ac.ev, err = w.build("m.room.member", strp(target), sender, ref.O("membership", ref.S(gen.Pick(r, []string{"ban", "leave", "invite"}))), nil, "")
+			default:
+				ac.ev, err = w.build("m.room.message", nil, sender, ref.O("body", ref.S("hi")), nil, "")
+			}
+		case 2: // the room's join rule
+			jc := ref.O(variant("join_rule"), ref.S("public"))
+			if r.Chance(0.5) {
+				jc.Set("join_rule", ref.S(gen.Pick(r, []string{"invite", "knock"})))
+				// real key first, lookalike last
+				jc = ref.O("join_rule", jc.Get("join_rule"), variant("join_rule"), ref.S("public"))
+			}
+			if jr, e := w.build("m.room.join_rules", strp(""), authUsers[0], jc, nil, ""); e == nil {
+				replace("m.room.join_rules", jr)
+			}
+			ac.ev, err = w.build("m.room.member", strp(sender), sender, ref.O("membership", ref.S("join")), nil, "")
+		default: // a power-levels event under test that smuggles levels in under lookalike keys
+			var cur *ref.Value
+			if plEv != nil {
+				cur = ref.MustParse(plEv.Content())
+			}
+			pc := proposePL(r, w.t, cur, creators)
+			pc.Set(variant("users"), ref.O(sender, ref.I(1000000)))
+			pc.Set(variant(gen.Pick(r, []string{"ban", "kick", "events_default", "state_default", "users_default"})), ref.I(gen.Pick(r, []int64{-1, 0, 1000000})))
+			ac.ev, err = w.build("m.room.power_levels", strp(""), sender, pc, nil, "")
+		}
 	}
 	if err != nil {
 		return nil, err
@@ -425,7 +493,11 @@ func runC07(c *mon.Ctx) {
 						if got == nil {
 							dir = "library-accepts"
 						}
-						c.Failf("auth:"+dir+":"+rule, "v%s %s event: reference %s by rule %s, library: %v\nevent: %s\nstate: %v", w.ver, ac.kind, want, rule, got, ac.ev.JSON(), describeState(ac.state))
+						sig := "auth:" + dir + ":" + rule
+						if ac.kind == "lookalike-keys" {
+							sig = "auth:lookalike-content-key:" + dir
+						}
+						c.Failf(sig, "v%s %s event: reference %s by rule %s, library: %v\nevent: %s\nstate: %v", w.ver, ac.kind, want, rule, got, ac.ev.JSON(), describeState(ac.state))
 					}
 					if c.WantSample() && want == ref.Allow && ac.kind != "message" {
 						c.Sample(map[string]any{"version": ver, "kind": ac.kind, "decided_by": rule, "verdict": want.String(), "event": string(ac.ev.JSON()), "state": describeState(ac.state)})
